@@ -656,10 +656,13 @@ theorem sim_dropWaker1 (hwf : WF4 w.prog) (hR : R4 w s) (hact : w.tid < w.ctl.le
     have hs := branch_sched h4
     refine ⟨hs.fr.1.trans (hk3.1.1.trans hk1.1.1), ⟨s', hex, ?_⟩, hs.inRange⟩
     have hv : view4 w' = { view4 w with
-        ctl := w.ctl.modify w.tid (fun c => { c with stage := 2 }),
+        ctl := w.ctl.modify w.tid (fun c => { c with taken := (w.futs.getD f {}).arc, stage := 2 }),
         futs := w.futs.modify f (fun s => { s with slot := false }) } := by
-      rw [hs.view, view4_setStage, hv3', hctl3, htid3]
-    have hopc' : opOfCtl w.prog { w.ctlOf w.tid with stage := 2 } = some (.dropWaker f) := hop
+      rw [hs.view, view4_setStage, view4_modCtl, hv3']
+      show ({ view4 w with
+        ctl := (w3.ctl.modify w3.tid _).modify w3.tid _, futs := _ } : View) = _
+      rw [hctl3, htid3, modify_modify']
+    have hopc' : opOfCtl w.prog { w.ctlOf w.tid with taken := (w.futs.getD f {}).arc, stage := 2 } = some (.dropWaker f) := hop
     unfold R4
     refine R4_step hR hact _ (fun h => { h with rets := (h.pc, Ret.unit) :: h.rets, pc := h.pc + 1 })
       _ (view4 w).objs hv hdt hdv rfl (Nat.le_refl _) ?_ ?_ id (fun _ _ _ h => h) ?_
@@ -671,13 +674,13 @@ theorem sim_dropWaker1 (hwf : WF4 w.prog) (hR : R4 w s) (hact : w.tid < w.ctl.le
     · intro hne
       exact absurd (fin_zero4 hR hact hop) hne
     · refine RF.ofGroups' (x1 := none) (x2 := none) (x3 := none) (x4 := none) hact _
-        (by show inflS w.prog { w.ctlOf w.tid with stage := 2 } = _
+        (by show inflS w.prog { w.ctlOf w.tid with taken := _, stage := 2 } = _
             simp only [inflS, hopc'])
-        (by show pendN w.prog { w.ctlOf w.tid with stage := 2 } = _
+        (by show pendN w.prog { w.ctlOf w.tid with taken := _, stage := 2 } = _
             simp only [pendN, hopc'])
-        (by show callOf w.prog { w.ctlOf w.tid with stage := 2 } = _
+        (by show callOf w.prog { w.ctlOf w.tid with taken := _, stage := 2 } = _
             simp only [callOf, hopc'])
-        (by show aw25 w.prog { w.ctlOf w.tid with stage := 2 } = _
+        (by show aw25 w.prog { w.ctlOf w.tid with taken := _, stage := 2 } = _
             simp only [aw25, hopc']) ?_ ?_ ?_ ?_
       · rw [hdf]; exact hGS
       · rw [hdf]; exact hGC
